@@ -61,12 +61,21 @@ impl PolicyClient for Cl {
 
 const P2: &str = "pub fn main(a: u8, b: u8) -> u8 { a + b }";
 const P3: &str = "pub fn main(a: u8, b: u8, c: u8) -> u8 { a + b + c }";
+// same text up to the position of one line break: in the B variant the `+ b` is part of the comment, so the programs compute different functions
+const NL_A2: &str = "pub fn main(a: u8, b: u8) -> u8 {\n    a // lhs\n    + b\n}";
+const NL_B2: &str = "pub fn main(a: u8, b: u8) -> u8 {\n    a // lhs    + b\n}";
+const NL_A3: &str = "pub fn main(a: u8, b: u8, c: u8) -> u8 {\n    a + c // lhs\n    + b\n}";
+const NL_B3: &str = "pub fn main(a: u8, b: u8, c: u8) -> u8 {\n    a + c // lhs    + b\n}";
+const P3C: &str = "const K: u8 = PARTY_0::K;\npub fn main(a: u8, b: u8, c: u8) -> u8 { a + b + c + K }";
+const P3C2: &str = "const K: u8 = PARTY_0::K;\nconst L: u8 = PARTY_2::L;\npub fn main(a: u8, b: u8, c: u8) -> u8 { a + b + c + K + L }";
 const P2C: &str = "const K: u8 = PARTY_0::K;\npub fn main(a: u8, b: u8) -> u8 { a + b + K }";
 fn policy(n: usize, party: usize, leader: usize, out: bool, id: Uuid, prog: &str, consts: bool) -> Policy {
-    let mut constants = HashMap::new(); if consts && party == 0 { constants.insert("K".to_string(), Literal::from(5u8)); }
+    let mut constants = HashMap::new(); if consts && party == 0 && prog.contains("PARTY_0::K") { constants.insert("K".to_string(), Literal::from(5u8)); }
+    if consts && party == 2 && prog.contains("PARTY_2::L") { constants.insert("L".to_string(), Literal::from(5u8)); }
     Policy { computation_id: id, participants: (0..n).map(|i| Url::parse(&format!("http://h{i}")).unwrap()).collect(), program: prog.to_string(), leader, party,
         input: Literal::from((party as u8) + 3), output: if out { Some(Url::parse(&format!("http://out{party}")).unwrap()) } else { None }, constants }
 }
+fn expected_prog(n: usize, prog: &str) -> String { let s: u8 = (0..n as u8).map(|p| p + 3).sum::<u8>() + 5 * prog.matches("= PARTY_").count() as u8; format!("Ok({s})") }
 fn expected(n: usize, consts: bool) -> String { let s: u8 = (0..n as u8).map(|p| p + 3).sum::<u8>() + if consts { 5 } else { 0 }; format!("Ok({s})") }
 
 struct Sys { sh: Arc<Shared>, handles: Vec<PolicyStateHandle>, joins: Vec<tokio::task::JoinHandle<()>>, sems: Vec<Arc<Semaphore>> }
@@ -86,7 +95,9 @@ async fn explore2(s: &Sys, r: &mut Rng, fail: Option<(&'static str, usize)>, mut
     loop {
         settle().await;
         if let Some(inj) = hook(step, idle) { log.push(format!("inject@{step} {inj:?}")); do_inject(s, inj, &mut log).await; }
-        let next = { let mut p = s.sh.pending.lock().unwrap(); if p.is_empty() { None } else { let i = r.below(p.len() as u64) as usize; Some(p.remove(i)) } };
+        let next = { let mut p = s.sh.pending.lock().unwrap(); let held = *HOLD.lock().unwrap();
+            let cand: Vec<usize> = (0..p.len()).filter(|i| !matches!(held, Some((k, f, t)) if k == p[*i].kind && f == p[*i].from && t == p[*i].to)).collect();
+            if cand.is_empty() { None } else { let i = cand[r.below(cand.len() as u64) as usize]; Some(p.remove(i)) } };
         match next {
             Some(p) => { idle = 0; step += 1; let k = { let e = nth.entry(p.kind).or_insert(0); *e += 1; *e - 1 };
                 let deliver = !matches!(fail, Some((kind, j)) if kind == p.kind && j == k);
@@ -97,6 +108,8 @@ async fn explore2(s: &Sys, r: &mut Rng, fail: Option<(&'static str, usize)>, mut
     }
     log
 }
+/// a coordination RPC (kind, from, to) that the explorer does not release while this is set
+static HOLD: Mutex<Option<(&'static str, usize, usize)>> = Mutex::new(None);
 #[derive(Debug, Clone)]
 enum Inject { Cancel(usize), MsgOob(usize), DupSchedule(usize, bool), StrayRun(usize), StrayConsts(usize), StrayValidate(usize) }
 async fn do_inject(s: &Sys, inj: Inject, log: &mut Vec<String>) {
@@ -172,16 +185,18 @@ async fn futures_join_all<F: std::future::Future>(futs: Vec<F>) -> Vec<F::Output
 /// replay the observed (command, kind before, kind after) sequence of every actor through the Lean step function
 fn correspond(m: &mut model::Model, o: &Outcome, fail: Option<&str>, disagreements: &mut Vec<serde_json::Value>, steps: &mut u64) {
     let re_num = |s: &str, key: &str| -> Option<usize> { regex::Regex::new(&format!(r"{key}: (\d+)")).unwrap().captures(s).and_then(|c| c[1].parse().ok()) };
-    let prog_id = |s: &str| -> (usize, bool) { if s.contains("a + true") { (99, false) } else if s.contains("a ^ b") { (2, true) } else if s.contains("PARTY_0::K") { (3, true) } else if s.contains("a + b + c") { (4, true) } else { (1, true) } };
-    let hash_id = |h: &str| -> usize { for (p, id) in [(P2, 1usize), (P3, 4), (P2C, 3), ("pub fn main(a: u8, b: u8) -> u8 { a ^ b }", 2), ("pub fn main(a: u8, b: u8, c: u8) -> u8 { a ^ b ^ c }", 2)] { let pol = policy(2, 0, 0, false, Uuid::from_u128(7), p, false); if h.contains(&pol.program_hash()) { return id; } } 77 };
+    let prog_id = |s: &str| -> (usize, bool) { if s.contains("a + true") { (99, false) } else if s.contains("// lhs    + b") { (5, true) } else if s.contains("// lhs") { (6, true) } else if s.contains("a + a }") || s.contains("a + b + b }") { (7, true) } else if s.contains("a ^ b") { (2, true) } else if s.contains("PARTY_0::K") { (3, true) } else if s.contains("a + b + c") { (4, true) } else { (1, true) } };
+    let hash_id = |h: &str| -> usize { for (p, id) in [(NL_B2, 5usize), (NL_B3, 5), (NL_A2, 6), (NL_A3, 6), ("pub fn main(a: u8, b: u8) -> u8 { a + a }", 7), ("pub fn main(a: u8, b: u8, c: u8) -> u8 { a + b + b }", 7), (P2, 1usize), (P3, 4), (P2C, 3), (P3C, 3), (P3C2, 3), ("pub fn main(a: u8, b: u8) -> u8 { a ^ b }", 2), ("pub fn main(a: u8, b: u8, c: u8) -> u8 { a ^ b ^ c }", 2)] { let pol = policy(2, 0, 0, false, Uuid::from_u128(7), p, false); if h.contains(&pol.program_hash()) { return id; } } 77 };
     let mut actors: Vec<usize> = o.obs.iter().map(|e| e.0).collect(); actors.sort(); actors.dedup();
-    for a in actors { m.ask(&format!("srv {a} reset"));
-        for (_, cmd, before, after) in o.obs.iter().filter(|e| e.0 == a) { *steps += 1;
+    for a in actors { m.ask(&format!("srv {a} reset")); let mut inits = 0usize;
+        for (_, cmd, before, after) in o.obs.iter().filter(|e| e.0 == a) {
+            if cmd == "InitChannel" { inits += 1; continue; }          // reported from inside `init_channel`, i.e. before the event of the command that caused it
+            *steps += 1;
             let name = cmd.split(['(', ' ']).next().unwrap_or("");
             let mut lines: Vec<String> = vec![];
             match name {
                 "Schedule" => { let (party, leader) = (re_num(cmd, "party").unwrap_or(0), re_num(cmd, "leader").unwrap_or(0)); let n = cmd.matches("http://h").count(); let (pid, wt) = prog_id(cmd);
-                    let out = !cmd.contains("output: None"); let oc = !cmd.contains("constants: {}"); let deps = if pid == 3 { 1 } else { 0 };
+                    let out = !cmd.contains("output: None"); let oc = !cmd.contains("constants: {}"); let deps = cmd.matches("= PARTY_").count();
                     lines.push(format!("schedule {party} {leader} {n} {pid} {} {} {} {deps}", wt as u8, out as u8, oc as u8));
                     if party == leader && before == "Init" && wt { match (after.as_str(), fail) {
                         ("Stopped", Some("run")) => { lines.push("leaderValidated 1".into()); lines.push("leaderPermit".into()); lines.push("leaderRunDone 0".into()); }
@@ -198,6 +213,9 @@ fn correspond(m: &mut model::Model, o: &Outcome, fail: Option<&str>, disagreemen
             let model_kind = resp.split_whitespace().next().unwrap_or("").trim_start_matches("kind=").to_string();
             // the self-sent Run (ret = None) and the external one look the same to the observer; the model only differs in the reply effect
             if !lines.is_empty() && model_kind != *after { disagreements.push(json!({"actor": a, "command": cmd.chars().take(80).collect::<String>(), "before": before, "real_after": after, "model": resp, "model_cmds": lines})); break; }
+            // the MPC channel endpoints: the model replaces them (chanGen) exactly when the real actor calls `init_channel`
+            let model_gen: Option<usize> = resp.split_whitespace().find_map(|t| t.strip_prefix("gen=")).and_then(|x| x.parse().ok());
+            if !lines.is_empty() && after != "Stopped" { if let Some(g) = model_gen { if g != inits { disagreements.push(json!({"what": "channel endpoints (re)initialised by the real actor but not by the model, or vice versa", "actor": a, "command": cmd.chars().take(80).collect::<String>(), "before": before, "after": after, "real_init_channel_calls": inits, "model_chanGen": g})); break; } } }
         } }
 }
 
@@ -211,12 +229,12 @@ async fn main() {
     let mut r = Rng::new(seed); let mut failures = vec![]; let mut samples = vec![]; let mut dist: BTreeMap<String, u64> = BTreeMap::new(); let mut distinct = std::collections::BTreeSet::new(); let mut execs = 0u64;
     for case in 0..cases {
         let n = if r.below(3) == 0 { 3 } else { 2 }; let prog = if n == 2 { P2 } else { P3 }; let leader = r.below(n as u64) as usize;
-        let outs: Vec<bool> = (0..n).map(|_| r.below(4) != 0).collect(); let consts = n == 2 && r.below(3) == 0; let prog = if consts { P2C } else { prog };
+        let outs: Vec<bool> = (0..n).map(|_| r.below(4) != 0).collect(); let consts = r.below(3) == 0; let prog = if consts { if n == 2 { P2C } else if r.bool() { P3C } else { P3C2 } } else { prog };
         let desc = |extra: serde_json::Value| json!({"case": case, "n": n, "leader": leader, "outputs": outs, "consts": consts, "extra": extra});
         match prop.as_str() {
             "C13" => {
                 let o = scenario(n, leader, &outs, consts, &vec![prog; n], &vec![leader; n], 1, &mut r, None, |_, _| None).await; execs += 1; correspond(&mut m, &o, None, &mut disagreements, &mut steps);
-                let want = expected(n, consts); let key = o.log.iter().filter(|l| l.starts_with("deliver")).cloned().collect::<Vec<_>>().join(";");
+                let want = expected_prog(n, prog); let key = o.log.iter().filter(|l| l.starts_with("deliver")).cloned().collect::<Vec<_>>().join(";");
                 *dist.entry(format!("n:{n}")).or_default() += 1; *dist.entry(format!("consts:{consts}")).or_default() += 1; distinct.insert(key);
                 let mut bad = vec![];
                 if o.sched.iter().any(|s| s != "Ok") { bad.push(format!("schedule results {:?}", o.sched)); }
@@ -227,12 +245,26 @@ async fn main() {
                 if samples.len() < 2 { samples.push(desc(json!({"log": o.log, "outputs": o.outputs}))); }
             }
             "C14" => {
+                // corpus first: a duplicate schedule at a party that still waits for a peer's constants while another party is already sending MPC messages to it
+                if case < 2 {
+                    let (n, prog, leader) = (3usize, P3C2, case % 2); let outs = vec![true; 3];
+                    *HOLD.lock().unwrap() = Some(("consts", 2, 1)); let mut done = false;
+                    let o = scenario(n, leader, &outs, true, &vec![prog; n], &vec![leader; n], 1, &mut r, None, move |_step, idle| if !done && idle >= 3 { done = true; *HOLD.lock().unwrap() = None; Some(Inject::DupSchedule(1, false)) } else { None }).await; execs += 1;
+                    *HOLD.lock().unwrap() = None; correspond(&mut m, &o, None, &mut disagreements, &mut steps);
+                    *dist.entry("inject:DupSchedule-in-consts-window".into()).or_default() += 1; distinct.insert(format!("consts-window {leader}"));
+                    let want = expected_prog(n, prog); let mut bad = vec![]; let reply = o.log.iter().skip_while(|l| !l.starts_with("inject@")).nth(1).cloned().unwrap_or_default();
+                    if reply.contains("Ok(Ok(()))") || !reply.contains("Err") { bad.push(format!("duplicate schedule was not answered with an error: {reply}")); }
+                    for p in 0..n { let got: Vec<&String> = o.outputs.iter().filter(|(q, _)| *q == p).map(|(_, s)| s).collect(); if got != vec![&want] { bad.push(format!("party {p} destination got {got:?}, want one {want} (MPC messages sent: {})", o.msgs)); } }
+                    if o.finished.iter().any(|f| !f) { bad.push(format!("state machines not stopped: {:?}", o.finished)); } if o.panicked.iter().any(|p| *p) { bad.push("actor panicked".into()); }
+                    if !bad.is_empty() { failures.push(json!({"witness": "C14:dup-schedule-consts-window", "failure": bad, "case": json!({"n": n, "leader": leader, "program": "two const suppliers (0, 2)", "held": "consts 2->1", "log": o.log})})); }
+                    continue;
+                }
                 let mut at = r.below(6) as usize; let victim = r.below(n as u64) as usize; let kind = r.below(6); if kind == 1 || kind == 2 { at = at.max(1); } if kind == 5 { at = 2 * (n - 1); } // a validate is only *invalid for the state* once the party is past AwaitingValidation
                 let inj = match kind { 0 => Inject::MsgOob(victim), 1 => Inject::DupSchedule(victim, false), 2 => Inject::DupSchedule(victim, true), 3 => Inject::StrayRun(victim), 4 => Inject::StrayConsts(victim), _ => Inject::StrayValidate(victim) };
                 let inj2 = inj.clone(); let mut done = false;
                 let o = scenario(n, leader, &outs, consts, &vec![prog; n], &vec![leader; n], 1, &mut r, None, move |step, idle| if !done && (step >= at || idle >= 1 + (at as u64) / 3) { done = true; Some(inj2.clone()) } else { None }).await; execs += 1; correspond(&mut m, &o, None, &mut disagreements, &mut steps);
                 *dist.entry(format!("inject:{}", format!("{inj:?}").split('(').next().unwrap())).or_default() += 1; distinct.insert(format!("{:?}", (format!("{inj:?}"), at, n)));
-                let want = expected(n, consts); let mut bad = vec![]; let reply = o.log.iter().skip_while(|l| !l.starts_with("inject@")).nth(1).cloned().unwrap_or_default();
+                let want = expected_prog(n, prog); let mut bad = vec![]; let reply = o.log.iter().skip_while(|l| !l.starts_with("inject@")).nth(1).cloned().unwrap_or_default();
                 if o.panicked.iter().any(|p| *p) { bad.push(("C14-a:msg-index-panic", format!("actor panicked ({inj:?}) reply {reply}"))); }
                 let disturbed = (0..n).any(|p| outs[p] && o.outputs.iter().filter(|(q, _)| *q == p).map(|(_, s)| s.clone()).collect::<Vec<_>>() != vec![want.clone()]);
                 // a stray command that arrives before the party's own schedule legitimately changes the flow (e.g. a bogus validate); only count disturbance when the reply was an error
@@ -250,7 +282,7 @@ async fn main() {
                 *dist.entry(format!("mode:{}", if use_fast { "right-after-delivery" } else { "at-quiescence" })).or_default() += 1;
                 *dist.entry(format!("cancel_at:{at}")).or_default() += 1; distinct.insert(format!("{:?}", (at, victim, n, leader)));
                 let reply = o.log.iter().skip_while(|l| !l.starts_with("inject")).nth(1).cloned().unwrap_or_default(); let ok = reply.contains("Ok(Ok(()))");
-                let got: Vec<String> = o.outputs.iter().filter(|(q, _)| *q == victim).map(|(_, s)| s.clone()).collect(); let want = expected(n, consts);
+                let got: Vec<String> = o.outputs.iter().filter(|(q, _)| *q == victim).map(|(_, s)| s.clone()).collect(); let want = expected_prog(n, prog);
                 if ok { let mut bad = vec![];
                     if !o.finished[victim] { bad.push("state machine still running after cancel returned Ok".to_string()); }
                     if outs[victim] && !(got == vec!["Cancelled".to_string()] || got == vec![want.clone()]) { bad.push(format!("destination got {got:?} (want exactly one Cancelled or the real result)")); }
@@ -260,9 +292,14 @@ async fn main() {
                 if samples.len() < 2 { samples.push(desc(json!({"cancel_at": at, "victim": victim, "reply": reply, "got": got}))); }
             }
             "C16" => {
-                let bad_follower = (leader + 1 + r.below(n as u64 - 1) as usize) % n; let kind = r.below(3);
+                // kinds 3 and 4: programs that are DIFFERENT (they compute different functions) but textually as close as possible — a line break that
+                // moves code into a comment, and a difference in the very last token; kinds cycle deterministically first, then seeded
+                let bad_follower = (leader + 1 + r.below(n as u64 - 1) as usize) % n; let kind = if case < 5 { case as u64 } else { r.below(5) };
                 let mut progs = vec![prog; n]; let mut leaders = vec![leader; n]; let other = if n == 2 { "pub fn main(a: u8, b: u8) -> u8 { a ^ b }" } else { "pub fn main(a: u8, b: u8, c: u8) -> u8 { a ^ b ^ c }" };
-                let what = match kind { 0 => { progs[bad_follower] = other; "program" } 1 => { leaders[bad_follower] = (0..n).find(|p| *p != leader && *p != bad_follower).unwrap_or(leader); if leaders[bad_follower] == leader { progs[bad_follower] = other; "program" } else { "leader" } } _ => { progs[bad_follower] = "pub fn main(a: u8) -> u8 { a + true }"; "illtyped" } };
+                let what = match kind { 0 => { progs[bad_follower] = other; "program" } 1 => { leaders[bad_follower] = (0..n).find(|p| *p != leader && *p != bad_follower).unwrap_or(leader); if leaders[bad_follower] == leader { progs[bad_follower] = other; "program" } else { "leader" } }
+                    2 => { progs[bad_follower] = "pub fn main(a: u8) -> u8 { a + true }"; "illtyped" }
+                    3 => { progs = vec![if n == 2 { NL_A2 } else { NL_A3 }; n]; progs[bad_follower] = if n == 2 { NL_B2 } else { NL_B3 }; "program_linebreak" }
+                    _ => { progs[bad_follower] = if n == 2 { "pub fn main(a: u8, b: u8) -> u8 { a + a }" } else { "pub fn main(a: u8, b: u8, c: u8) -> u8 { a + b + b }" }; "program_tail" } };
                 let o = scenario(n, leader, &outs, false, &progs, &leaders, 1, &mut r, None, |_, _| None).await; execs += 1; correspond(&mut m, &o, None, &mut disagreements, &mut steps);
                 *dist.entry(format!("mismatch:{what}")).or_default() += 1; distinct.insert(format!("{:?}", (what, n, leader, bad_follower, o.log.join(";"))));
                 let mut bad = vec![];
@@ -276,7 +313,7 @@ async fn main() {
             "C17" => {
                 // corpus first: every RPC kind x both leaders x destinations absent/present (n = 2), deterministically; then seeded random scenarios
                 let fixed = case < 12;
-                let kind = if fixed { ["validate", "run", "consts"][case % 3] } else { ["validate", "run", "consts"][r.below(3) as usize] }; let consts2 = if fixed { kind == "consts" } else { consts || kind == "consts" }; let n2 = if consts2 || fixed { 2 } else { n }; let prog2 = if consts2 { P2C } else if n2 == 2 { P2 } else { P3 };
+                let kind = if fixed { ["validate", "run", "consts"][case % 3] } else { ["validate", "run", "consts"][r.below(3) as usize] }; let consts2 = if fixed { kind == "consts" } else { consts || kind == "consts" }; let n2 = if fixed { 2 } else if consts2 { n } else { n }; let prog2 = if consts2 { if n2 == 2 { P2C } else { P3C } } else if n2 == 2 { P2 } else { P3 };
                 let leader2 = if fixed { (case / 3) % 2 } else { leader % n2 }; let outs2: Vec<bool> = if fixed { vec![case / 6 == 1; 2] } else { outs.iter().take(n2).cloned().collect() };
                 let o = scenario(n2, leader2, &outs2, consts2, &vec![prog2; n2], &vec![leader2; n2], 1, &mut r, Some((kind, 0)), |_, _| None).await; execs += 1; correspond(&mut m, &o, Some(kind), &mut disagreements, &mut steps);
                 *dist.entry(format!("fail:{kind}")).or_default() += 1; *dist.entry(format!("leader_has_dest:{}", outs2[leader2])).or_default() += 1; distinct.insert(format!("{:?}", (kind, n2, leader2, outs2.clone())));
